@@ -29,6 +29,7 @@ from static_frame.core.util import binary_transition
 from static_frame.core.util import column_1d_filter
 from static_frame.core.util import column_2d_filter
 from static_frame.core.util import DTYPE_BOOL
+from static_frame.core.util import DTYPE_FLOAT_DEFAULT
 from static_frame.core.util import DTYPE_INEXACT_KINDS
 from static_frame.core.util import DTYPE_OBJECT
 from static_frame.core.util import dtype_to_fill_value
@@ -2081,8 +2082,20 @@ class TypeBlocks(ContainerOperand):
                 columns += b.shape[1]
             blocks.append(b)
 
-        row_dtype = resolve_dtype_iter(b.dtype for b in blocks)
         row_multiple = row_key is None or isinstance(row_key, KEY_MULTIPLE_TYPES)
+
+        if not blocks:
+            # no column is selected: an array without columns that keeps the selected row count
+            dtype = self._row_dtype if self._row_dtype is not None else DTYPE_FLOAT_DEFAULT
+            if row_multiple:
+                rows = len(range(self._shape[0])) if row_key is None else np.empty(self._shape[0], dtype=bool)[row_key].shape[0]
+                array = np.empty((rows, 0), dtype=dtype)
+            else:
+                array = np.empty(0, dtype=dtype)
+            array.flags.writeable = False
+            return array
+
+        row_dtype = resolve_dtype_iter(b.dtype for b in blocks)
 
         return self._blocks_to_array(
                 blocks=blocks,
